@@ -102,6 +102,9 @@ class C07(Check):
                 for style in ("block", "kitty", "iterm2"):
                     for tty in (True, False):
                         out.append({"api": "old", "style": style, "h": h, "animated": anim, "tty": tty, "deep": deep})
+            # a multi-frame image drawn as a still (animate=False): still-image rules apply
+            for style in (("block",) if tier == "quick" else ("block", "kitty", "iterm2")):
+                out.append({"api": "old", "style": style, "h": h, "animated": False, "multi_frame_still": True, "tty": True, "deep": tier != "quick"})
         return out
 
     def setup(self, shape, concrete):
@@ -127,7 +130,7 @@ class C07(Check):
     # ------------------------------------------------------------------ one run
     def run(self, eng, shape, W, H, w, stream, pty, extra, info):
         h = shape["h"]
-        n = 2 if shape["animated"] else 1
+        n = 2 if shape["animated"] or shape.get("multi_frame_still") else 1
         if shape["api"] == "new":
             RM, G, P, Frame, Renderable = self.RM, self.G, self.P, self.Frame, self.Renderable
             tsize = dc.TS((W, H))
@@ -206,10 +209,14 @@ class C07(Check):
                 return frame_for(shape["style"], k, w, h)
 
             type(img)._render_image = render_image
+            if True:
+                # a dynamic size setting (the default): evaluated for the draw, must be the enum member again afterwards
+                img._size = common.Size.FIT
+                type(img)._valid_size = lambda self_, *a, **k: (w, h)
             info["obj"] = img
             info["size0"] = img._size
             info["tell0"] = extra["seek0"] if animated else 0
-            img.draw("<", extra["pad_width"], "^", h + extra["bottom"], None, repeat=extra["loops"], cached=False, check_size=False)
+            img.draw("<", extra["pad_width"], "^", h + extra["bottom"], None, animate=not shape.get("multi_frame_still"), repeat=extra["loops"], cached=False, check_size=False)
         return info
 
     def body(self, eng, shape):
@@ -223,7 +230,7 @@ class C07(Check):
                      hide_cursor=bool(eng.bool("hide_cursor")) if new_api else True, echo_input=bool(eng.bool("echo_input")) if new_api else True,
                      kitty_version=[(0, 25, 0), (0, 30, 0)][eng.choice("kitty_version", 2)] if shape["style"] == "kitty" else None,
                      term=["iterm2", "wezterm", "konsole"][eng.choice("iterm2_term", 3)] if shape["style"] == "iterm2" else None,
-                     seek0=eng.choice("initial_frame", 2) if shape["animated"] else 0)
+                     seek0=eng.choice("initial_frame", 2) if shape["animated"] or shape.get("multi_frame_still") else 0)
         extra["pad_width"] = w + extra["left"]
         eng.assume(sym_and(extra["pad_width"] <= W, h + extra["bottom"] <= H))
         # ---- fault-free dry run: where does draw()'s own clean-up start?
